@@ -7,6 +7,7 @@ import (
 	"fmt"
 	"go/constant"
 	"go/token"
+	"go/types"
 	"sort"
 	"strings"
 
@@ -290,72 +291,129 @@ func fmtTerms(ts []hdrTerm) string {
 
 func ruleHdrDecoder(c *Ctx, r *RuleResult, fnName string) {
 	fn := c.Fn(fnName)
-	// the phi of type uint64 whose edges decode as header sums
 	expect := map[string]int64{
 		"(s[0]-63)<<0": 1,
-		"(s[1]-63)<<12 + (s[2]-63)<<6 + (s[3]-63)<<0":                                                 4,
+		"(s[1]-63)<<12 + (s[2]-63)<<6 + (s[3]-63)<<0":                                               4,
 		"(s[2]-63)<<30 + (s[3]-63)<<24 + (s[4]-63)<<18 + (s[5]-63)<<12 + (s[6]-63)<<6 + (s[7]-63)<<0": 8,
 	}
-	found := false
-	for _, b := range fn.Blocks {
-		for _, in := range b.Instrs {
-			ph, ok := in.(*ssa.Phi)
-			if !ok || !isInt(ph.Type()) || !isUnsigned(ph.Type()) || ph.Comment != "n" {
-				continue
-			}
-			// the companion phi `i` in the same block
-			var iph *ssa.Phi
-			for _, in2 := range b.Instrs {
-				if p2, ok := in2.(*ssa.Phi); ok && p2.Comment == "i" {
-					iph = p2
+	// a header form: the value of n and the number of header bytes that goes with it
+	type form struct {
+		n, i ssa.Value
+		at   ssa.Instruction
+	}
+	var forms []form
+	scope := codecScope(fn)
+	for _, f := range scope {
+		// (a) n and i joined by phis in one block
+		for _, b := range f.Blocks {
+			var nph, iph *ssa.Phi
+			for _, in := range b.Instrs {
+				ph, ok := in.(*ssa.Phi)
+				if !ok {
+					break
 				}
-			}
-			var forms []string
-			allOK := true
-			for ei, e := range ph.Edges {
-				var ts []hdrTerm
-				if !decodeTerms(e, &ts) {
-					allOK = false
-					continue
-				}
-				f := fmtTerms(ts)
-				forms = append(forms, f)
-				wantI, known := expect[f]
-				r.inst("%s: header form n = %s", fnName, f)
-				r.oblig(known)
-				if !known {
-					r.find(fnName+":header sum "+f, c.instrPos(ph), "%s decodes the size header as n = %s, which is none of the three forms of the format", fnName, f)
-					continue
-				}
-				if iph != nil {
-					iv, ok := constInt(iph.Edges[ei])
-					r.oblig(ok && iv == wantI)
-					if !(ok && iv == wantI) {
-						r.find(fnName+":data offset after header "+f, c.instrPos(iph), "%s continues at byte %d after the %d-byte size header", fnName, iv, wantI)
+				if isInt(ph.Type()) && isUnsigned(ph.Type()) && intBits(ph.Type()) == 64 && nph == nil {
+					ok := len(ph.Edges) >= 2
+					for _, e := range ph.Edges {
+						var ts []hdrTerm
+						if !decodeTerms(e, &ts) {
+							ok = false
+						}
+					}
+					if ok {
+						nph = ph
 					}
 				}
 			}
-			if !allOK || len(forms) != 3 {
-				r.undecided("%s: the header phi has %d recognisable forms of %d edges", fnName, len(forms), len(ph.Edges))
+			if nph == nil {
+				continue
 			}
-			if iph == nil {
-				r.undecided("%s: no data-offset variable i next to n", fnName)
+			for _, in := range b.Instrs {
+				ph, ok := in.(*ssa.Phi)
+				if !ok {
+					break
+				}
+				if ph != nph && isInt(ph.Type()) && !isUnsigned(ph.Type()) {
+					allConst := true
+					for _, e := range ph.Edges {
+						if _, isK := constInt(e); !isK {
+							allConst = false
+						}
+					}
+					if allConst {
+						iph = ph
+					}
+				}
 			}
-			found = true
+			for ei, e := range nph.Edges {
+				fm := form{n: e, at: nph}
+				if iph != nil {
+					fm.i = iph.Edges[ei]
+				}
+				forms = append(forms, fm)
+			}
+		}
+		// (b) a helper returning (n, bytesUsed, ...)
+		if len(forms) == 0 && f.Signature.Results().Len() >= 2 {
+			for _, b := range f.Blocks {
+				ret, ok := b.Instrs[len(b.Instrs)-1].(*ssa.Return)
+				if !ok {
+					continue
+				}
+				var ts []hdrTerm
+				if isUnsigned(ret.Results[0].Type()) && decodeTerms(ret.Results[0], &ts) {
+					forms = append(forms, form{n: ret.Results[0], i: ret.Results[1], at: ret})
+				}
+			}
+		}
+		if len(forms) > 0 {
+			break
 		}
 	}
-	if !found {
-		r.undecided("%s: size header decoding not recognised", fnName)
+	if len(forms) == 0 {
+		r.undecided("%s: size header decoding not recognised (neither a phi of header sums nor a helper returning them)", fnName)
+	} else {
+		seen := map[string]bool{}
+		for _, fm := range forms {
+			var ts []hdrTerm
+			decodeTerms(fm.n, &ts)
+			f := fmtTerms(ts)
+			seen[f] = true
+			wantI, known := expect[f]
+			r.inst("%s: header form n = %s", fnName, f)
+			r.oblig(known)
+			if !known {
+				r.find(fnName+":header sum "+f, c.instrPos(fm.at), "%s decodes the size header as n = %s, which is none of the three forms of the format", fnName, f)
+				continue
+			}
+			if fm.i == nil {
+				r.undecided("%s: no byte count accompanies the header form %s", fnName, f)
+				continue
+			}
+			iv, ok := constInt(fm.i)
+			r.oblig(ok && iv == wantI)
+			if !(ok && iv == wantI) {
+				r.find(fnName+":data offset after header "+f, c.instrPos(fm.at), "%s continues at byte %d after the %d-byte size header", fnName, iv, wantI)
+			}
+		}
+		for f := range expect {
+			if !seen[f] {
+				r.oblig(false)
+				r.find(fnName+":header form missing "+f, c.pos(fn.Pos()), "%s never decodes the header form n = %s", fnName, f)
+			}
+		}
 	}
 	// marker tests: s[0] != 126, s[1] != 126
 	markers := map[string]bool{}
-	for _, b := range fn.Blocks {
-		for _, in := range b.Instrs {
-			if bo, ok := in.(*ssa.BinOp); ok && (bo.Op == token.NEQ || bo.Op == token.EQL) {
-				if ix, ok := bo.X.(*ssa.Index); ok {
-					if ci, ok := constInt(ix.Index); ok {
-						if k, ok := constInt(bo.Y); ok && k > 100 {
-							markers[fmt.Sprintf("s[%d]:%d", ci, k)] = true
+	for _, f := range scope {
+		for _, b := range f.Blocks {
+			for _, in := range b.Instrs {
+				if bo, ok := in.(*ssa.BinOp); ok && (bo.Op == token.NEQ || bo.Op == token.EQL) {
+					if ix, ok := bo.X.(*ssa.Index); ok {
+						if ci, ok := constInt(ix.Index); ok {
+							if k, ok := constInt(bo.Y); ok && k > 100 {
+								markers[fmt.Sprintf("s[%d]:%d", ci, k)] = true
+							}
 						}
 					}
 				}
@@ -382,13 +440,49 @@ func ruleHdrDecoder(c *Ctx, r *RuleResult, fnName string) {
 	}
 }
 
-// roleConsts collects the integer constants appearing in a given syntactic role.
+// codecScope: the function, its closures, and the module functions it calls directly (helpers
+// such as a shared header reader or bit writer), so that a role is found wherever a refactoring put it.
+func codecScope(fn *ssa.Function) []*ssa.Function {
+	seen := map[*ssa.Function]bool{}
+	var out []*ssa.Function
+	var add func(f *ssa.Function, depth int)
+	add = func(f *ssa.Function, depth int) {
+		if f == nil || seen[f] || f.Blocks == nil {
+			return
+		}
+		seen[f] = true
+		out = append(out, f)
+		for _, a := range f.AnonFuncs {
+			add(a, depth)
+		}
+		if depth >= 1 {
+			return
+		}
+		for _, b := range f.Blocks {
+			for _, in := range b.Instrs {
+				if call, ok := in.(*ssa.Call); ok {
+					if cal := call.Call.StaticCallee(); cal != nil && cal.Pkg != nil && fn.Pkg != nil && cal.Pkg == fn.Pkg && cal.Signature.Recv() == nil {
+						// only unexported helpers: exported functions of the package are codecs or constructors of their own
+						if cal.Object() != nil && !cal.Object().Exported() {
+							add(cal, depth+1)
+						}
+					}
+				}
+			}
+		}
+	}
+	add(fn, 0)
+	return out
+}
+
 func roleConsts(fn *ssa.Function, match func(in ssa.Instruction) (int64, bool)) []int64 {
 	set := map[int64]bool{}
-	for _, b := range fn.Blocks {
-		for _, in := range b.Instrs {
-			if v, ok := match(in); ok {
-				set[v] = true
+	for _, f := range codecScope(fn) {
+		for _, b := range f.Blocks {
+			for _, in := range b.Instrs {
+				if v, ok := match(in); ok {
+					set[v] = true
+				}
 			}
 		}
 	}
@@ -495,7 +589,19 @@ func ruleSextet(c *Ctx) *RuleResult {
 	// counter+1 == K : the bit counter wrapping to the next byte
 	wrapAt := func(in ssa.Instruction) (int64, bool) {
 		if bo, ok := in.(*ssa.BinOp); ok && bo.Op == token.EQL && isInt(bo.X.Type()) && !isByte(bo.X.Type()) {
-			if inc, ok := bo.X.(*ssa.BinOp); ok && inc.Op == token.ADD {
+			x := bo.X
+			// a counter captured by a closure lives in a cell: look through the load at the value just stored
+			if ld, ok := x.(*ssa.UnOp); ok && ld.Op == token.MUL {
+				for _, prev := range ld.Block().Instrs {
+					if prev == ssa.Instruction(ld) {
+						break
+					}
+					if st, ok := prev.(*ssa.Store); ok && st.Addr == ld.X {
+						x = st.Val
+					}
+				}
+			}
+			if inc, ok := x.(*ssa.BinOp); ok && inc.Op == token.ADD {
 				if one, ok := constInt(inc.Y); ok && one == 1 {
 					return constInt(bo.Y)
 				}
@@ -506,8 +612,14 @@ func ruleSextet(c *Ctx) *RuleResult {
 	kFormula := func(fnName string) {
 		fn := c.Fn(fnName)
 		ok := false
-		for _, b := range fn.Blocks {
-			for _, in := range b.Instrs {
+		var all []ssa.Instruction
+		for _, f := range codecScope(fn) {
+			for _, b := range f.Blocks {
+				all = append(all, b.Instrs...)
+			}
+		}
+		for _, blk := range [][]ssa.Instruction{all} {
+			for _, in := range blk {
 				bo, isBo := in.(*ssa.BinOp)
 				if !isBo || bo.Op != token.SUB {
 					continue
@@ -606,6 +718,33 @@ func rangeDominates(c *Ctx, r *RuleResult, fn *ssa.Function, name string) {
 			if exit == nil || !(exit == b || exit.Dominates(b)) {
 				ok = false
 				r.find(name+":data read before range check", c.instrPos(in), "%s subtracts the offset from a byte that has not passed the [63,126] range check", name)
+			}
+		}
+	}
+	// helpers that receive the string (a shared header reader) must be called after the check as well
+	for _, b := range fn.Blocks {
+		for _, in := range b.Instrs {
+			call, isCall := in.(*ssa.Call)
+			if !isCall {
+				continue
+			}
+			cal := call.Call.StaticCallee()
+			if cal == nil || cal.Pkg != fn.Pkg || cal.Object() == nil || cal.Object().Exported() {
+				continue
+			}
+			takes := false
+			for _, a := range call.Call.Args {
+				if bt, isB := a.Type().Underlying().(*types.Basic); isB && bt.Info()&types.IsString != 0 {
+					takes = true
+				}
+			}
+			if !takes {
+				continue
+			}
+			n++
+			if exit == nil || !(exit == b || exit.Dominates(b)) {
+				ok = false
+				r.find(name+":helper reads bytes before range check", c.instrPos(in), "%s passes the string to %s before every byte has passed the [63,126] range check", name, cal.Name())
 			}
 		}
 	}
